@@ -32,15 +32,18 @@ theorem CreateUE_eq (imsi : Bytes) (ueNumber : Int) (k opc op : Bytes) :
           algCiphering128NEA0 algIntegrity128NIA2) k opc op := by
   rw [CreateUE_ids]; rfl
 
-/-- **Pin.** The statements after the translated prefix, and the signature, are the text the hand model
-    (`newRanUeContext`, `setAuthSubscription`) was written against. -/
+/-- **Pin.** The statements after the translated prefix, the signature, and the values of the two algorithm constants
+    those statements name are what the hand model (`newRanUeContext`, `setAuthSubscription`, `algCiphering128NEA0`,
+    `algIntegrity128NIA2`) was written against. -/
 theorem CreateUE_tail :
     Pure.Ue.CreateUE.tail =
       ["ue := tglib.NewRanUeContext(supi, int64(ranUeNgapId), security.AlgCiphering128NEA0, security.AlgIntegrity128NIA2)",
        "ue.AuthenticationSubs = tglib.GetAuthSubscription(K, OPC, OP)",
        "return ue"] ∧
-    Pure.Ue.CreateUE.signature = "func(imsi string, ueNumber int, K string, OPC string, OP string) *tglib.RanUeContext" := by
-  constructor <;> decide
+    Pure.Ue.CreateUE.signature = "func(imsi string, ueNumber int, K string, OPC string, OP string) *tglib.RanUeContext" ∧
+    Pure.Ue.CreateUE.tailConsts =
+      [("security.AlgCiphering128NEA0", (algCiphering128NEA0.toNat : Int)), ("security.AlgIntegrity128NIA2", (algIntegrity128NIA2.toNat : Int))] := by
+  refine ⟨by decide, by decide, by decide⟩
 
 /-- non-trivial instance: IMSI 208930000000003, UE number 7 -/
 example : Pure.Ue.CreateUE ext [50, 48, 56, 57, 51, 48, 48, 48, 48, 48, 48, 48, 48, 48, 51] 7 [] [] []
